@@ -5,10 +5,11 @@
    (b) containers derived by a rebuilding operator F: the vectors carry the container value the specification defines;
        the harness checks the RELATIVE law on the implementation: path(n) = path(c) ++ position, key(n) = last position,
        parent(n) = c, keys / to_entries enumerate the positions. *)
-EXTENDS Eval, Json
-CONSTANTS NShards, Shard
+EXTENDS Eval, Json, Docs
+CONSTANTS NShards, Shard,
+          Big      \* TRUE: the systematic document space of Docs.tla is added (thorough tier)
 A == <<"a">>  B == <<"b">>  C == <<"c">>
-DocSeq == <<
+BaseDocs == <<
   MapV(<< <<A, SeqV(<<IntV(2), IntV(0), IntV(1), IntV(2)>>)>>, <<B, MapV(<< <<A, IntV(2)>>, <<B, SeqV(<<IntV(0), IntV(2)>>)>> >>)>> >>),
   MapV(<< <<A, SeqV(<<MapV(<< <<A, IntV(2)>>, <<B, StrV(A)>> >>), MapV(<< <<A, IntV(1)>> >>), MapV(<< <<A, IntV(0)>>, <<B, Null>> >>)>>)>> >>),
   SeqV(<<StrV(B), SeqV(<<StrV(A), StrV(B)>>), StrV(A)>>),
@@ -16,6 +17,7 @@ DocSeq == <<
   \* string keys that look like integers stay strings in paths
   MapV(<< <<<<"0", "0", "7">>, MapV(<< <<A, IntV(1)>> >>)>>, <<<<"1", "2">>, IntV(2)>>, <<A, SeqV(<<IntV(0)>>)>> >>)
 >>
+DocSeq == IF Big THEN BaseDocs \o MoreDocs ELSE BaseDocs
 Idx(l, i) == ETravArr(l, ECollect(ELit(IntV(i))))
 Claims == << ENul("GET_PATH"), ENul("GET_KEY"), ENul("GET_PARENT") >>
 Nodes == << ERecurse(FALSE), ERecurse(TRUE), EPath(A), EPipe(EPath(A), ESplat), Idx(EPath(A), 1), Idx(EPath(A), -1), EPipe(EPath(B), EPath(B)), ESplat,
